@@ -255,6 +255,33 @@ theorem dedup_nodup (l : List String) : (dedup l).Nodup := by
 def targetFile (cfg : Cfg) (file : String) : String :=
   match cfg.layout with | .single => cfg.singleName | .follow => file
 
+/-! ## the names resolver.go looks up are the names resolver.gotpl emits
+
+The facts are regenerated (`Gen/RewriteOffsets`: which helper computes which name in which layout), so these
+close only while the two sides apply the same helper — for every type name and whatever `ToGo`,
+`ToGoPrivate`, `cases.Title` return (`cfg.names` is arbitrary). Everything below about kept bodies rests on
+`lookupName_eq`. -/
+
+/-- the receiver a previous method is looked up under is the receiver the template writes -/
+theorem lookupName_eq (cfg : Cfg) (o : Obj) : lookupName cfg o = structName cfg o := by
+  unfold lookupName structName byLayout; cases cfg.layout <;> rfl
+
+/-- the struct type marked copied is the struct type the template writes -/
+theorem markName_eq (cfg : Cfg) (o : Obj) : markName cfg o = structTypeName cfg o.name := by
+  unfold markName structTypeName byLayout; cases cfg.layout <;> rfl
+
+theorem mkMethod_def (cfg : Cfg) (p : Pkg) (o : Obj) (f : Field) :
+    mkMethod cfg p o f = mkOf cfg o f ((firstMatch p (structName cfg o) f.goName).map fun kd => content kd.2) := by
+  unfold mkMethod mkMethodAt; rw [lookupName_eq]
+
+theorem fieldReqs_def (cfg : Cfg) (o : Obj) :
+    fieldReqs cfg o = o.resolverFields.map fun f => ⟨structName cfg o, f.goName⟩ := by
+  unfold fieldReqs; simp only [lookupName_eq]
+
+theorem emittedReqs_eq (cfg : Cfg) (sch : Schema) : emittedReqs cfg sch = resolverReqs cfg sch := by
+  unfold emittedReqs resolverReqs
+  congr 1; funext o; exact (fieldReqs_def cfg o).symm
+
 theorem mkMethod_of_match (cfg : Cfg) (p : Pkg) (o : Obj) (f : Field) (k : Key) (d : Decl)
     (hm : firstMatch p (structName cfg o) f.goName = some (k, d)) (hne : trim d.inner ≠ []) :
     (mkMethod cfg p o f).recv = structName cfg o ∧ (mkMethod cfg p o f).name = f.goName ∧
@@ -265,14 +292,14 @@ theorem mkMethod_of_match (cfg : Cfg) (p : Pkg) (o : Obj) (f : Field) (k : Key) 
   have hk : keepOf cfg (some (content d)) = true := by
     unfold keepOf; cases cfg.layout <;> simp [implStrOf, content, getMethodBody_inner, hb]
   refine ⟨rfl, rfl, ?_, ?_, ?_, ?_⟩
-  · simp [mkMethod, mkOf, implStrOf, content, hm, getMethodBody_inner, hb]
-  · unfold mkMethod; rw [hm]; simp only [Option.map_some, mkOf, hk, if_true]; rfl
-  · unfold mkMethod; rw [hm]; simp only [Option.map_some, mkOf, hk, if_true]; rfl
+  · simp [mkMethod_def, mkOf, implStrOf, content, hm, getMethodBody_inner, hb]
+  · rw [mkMethod_def, hm]; simp only [Option.map_some, mkOf, hk, if_true]; rfl
+  · rw [mkMethod_def, hm]; simp only [Option.map_some, mkOf, hk, if_true]; rfl
   · intro hdoc
     have : (trim (trimBackslashes d.doc) != []) = true := by simpa using hdoc
     have hkc : keptComment cfg (some (content d)) = trim (trimBackslashes d.doc) := by
       simp only [keptComment, hk, if_true]; rfl
-    unfold mkMethod; rw [hm]; simp only [Option.map_some, mkOf, hkc, this, if_true]
+    rw [mkMethod_def, hm]; simp only [Option.map_some, mkOf, hkc, this, if_true]
 
 theorem mkMethod_recv (cfg : Cfg) (p : Pkg) (o : Obj) (f : Field) : (mkMethod cfg p o f).recv = structName cfg o := rfl
 theorem mkMethod_name (cfg : Cfg) (p : Pkg) (o : Obj) (f : Field) : (mkMethod cfg p o f).name = f.goName := rfl
@@ -820,7 +847,7 @@ theorem spec_methods_hold (cfg : Cfg) (p : Pkg) (sch : Schema)
     (hdoc : ∀ r ∈ resolverReqs cfg sch, ∀ k d, firstMatch p r.recv r.name = some (k, d) → DocPlain d ∧ Formatted d) :
     Spec.methodViolations cfg p sch (step cfg p sch) = [] := by
   unfold Spec.methodViolations
-  rw [List.flatMap_eq_nil_iff]
+  rw [emittedReqs_eq, List.flatMap_eq_nil_iff]
   intro r hr
   cases hfm : firstMatch p r.recv r.name with
   | none => rfl
@@ -835,7 +862,7 @@ theorem spec_methods_hold (cfg : Cfg) (p : Pkg) (sch : Schema)
       unfold resolverReqs at hr
       rw [List.mem_flatMap] at hr
       obtain ⟨o, ho, hr⟩ := hr
-      unfold fieldReqs at hr
+      rw [fieldReqs_def] at hr
       rw [List.mem_map] at hr
       obtain ⟨f, hf, rfl⟩ := hr
       simp only at hfm
@@ -851,7 +878,7 @@ theorem spec_methods_hold (cfg : Cfg) (p : Pkg) (sch : Schema)
       have hkeeps : Spec.keeps d (mkMethod cfg p o f).toDecl = true := by
         have hdpf := hdoc _ (by
           unfold resolverReqs; rw [List.mem_flatMap]
-          exact ⟨o, ho, List.mem_map.mpr ⟨f, hf, rfl⟩⟩) k d hfm
+          exact ⟨o, ho, by rw [fieldReqs_def]; exact List.mem_map.mpr ⟨f, hf, rfl⟩⟩) k d hfm
         have hdp := hdpf.1
         have hb : (mkMethod cfg p o f).toDecl.canon = d.canon := by
           show (mkMethod cfg p o f).impl = d.canon
@@ -1041,7 +1068,7 @@ theorem noTrail_nil : NoTrailSpace [] := by intro c r h; simp at h
 theorem mkMethod_tight (cfg : Cfg) (p : Pkg) (o : Obj) (f : Field) (hgo : StartsWithLetter f.goName) :
     NoLeadSpace (mkMethod cfg p o f).impl ∧ NoTrailSpace (mkMethod cfg p o f).impl ∧
     NoLeadSpace (mkMethod cfg p o f).doc ∧ NoTrailSpace (mkMethod cfg p o f).doc := by
-  unfold mkMethod
+  rw [mkMethod_def]
   generalize hc : (firstMatch p (structName cfg o) f.goName).map (fun kd => content kd.2) = c
   have hbody : NoLeadSpace (implStrOf c) ∧ NoTrailSpace (implStrOf c) := by
     cases c with
@@ -1103,7 +1130,7 @@ theorem idempotent_methods_lemma (cfg : Cfg) (p : Pkg) (sch : Schema) (o : Obj) 
     exact ⟨(k, _), hk, by simp [isMethod, NewMethod.toDecl, mkMethod_recv, mkMethod_name]⟩
   obtain ⟨k1, d1, hfm1, hmem1, hm1⟩ := firstMatch_of_present hpres
   have hY : mkMethod cfg (step cfg p sch) o f = mkOf cfg o f (some (content d1)) := by
-    unfold mkMethod; rw [hfm1]; rfl
+    rw [mkMethod_def, hfm1]; rfl
   rw [hY]
   obtain ⟨g, hg, hdg⟩ := mem_of_mem_allDecls hmem1
   rcases mem_apply hg with hold | ⟨nf, hnf, rfl⟩
@@ -1113,7 +1140,7 @@ theorem idempotent_methods_lemma (cfg : Cfg) (p : Pkg) (sch : Schema) (o : Obj) 
     obtain ⟨k0, d0, hfm0, hmem0, hm0⟩ := firstMatch_of_present hp
     have hc : content d1 = content d0 := hagree (k', d1) hk' (k0, d0) hmem0 hm1 hm0
     have hX : mkMethod cfg p o f = mkOf cfg o f (some (content d0)) := by
-      unfold mkMethod; rw [hfm0]; rfl
+      rw [mkMethod_def, hfm0]; rfl
     rw [hX, hc]
     exact ⟨rfl, rfl, rfl, rfl, rfl, rfl, rfl⟩
   · -- a declaration written by the first run
@@ -1129,7 +1156,7 @@ theorem idempotent_methods_lemma (cfg : Cfg) (p : Pkg) (sch : Schema) (o : Obj) 
         exact ⟨hm1.2, hm1.1⟩
       have hname := huniq o' ho' f' hf' hrn.1 hrn.2
       have hsame : mkMethod cfg p o' f' = mkMethod cfg p o f := by
-        unfold mkMethod
+        rw [mkMethod_def, mkMethod_def]
         rw [hrn.1, hrn.2]
         exact mkOf_congr cfg o o' f f' _ hrn.1 hrn.2 hname
       rw [← hnmeq, hsame]
